@@ -265,8 +265,7 @@ def classify(op, x, y=None):
     want3 = op in ("and", "cross")
     if kx == "F" and ky == "F":
         if cx != cy:
-            if 1 in (cx, cy):
-                return "skip:scalar-with-vector"
+            # (a scalar field broadcasts in arithmetic; for dot / cross / angle one and several components do not fit)
             return "refuse"
         if want3 and cx != 3:
             return "skip:cross-needs-3-components"
